@@ -145,10 +145,26 @@ theorem session_spec {p : Program} {s : St} (inv : Inv p s) {ws : List Write}
         rcases cls x nx hx with h | ⟨hl, _, d, hp, hi⟩
         · exact inv.kind x nx h
         · exact ⟨d, hp, hi, fun _ => ⟨hl.2.1, hl.2.2⟩⟩
-      · intro x nx hx
+      · intro x nx hx hkx d o nd' hm hnd'
         rcases cls x nx hx with h | ⟨hl, _⟩
-        · exact inv.noProj x nx h
-        · intro hk; rcases hl.1 with h | h <;> rw [hk] at h <;> cases h
+        · obtain ⟨_, nd, hnd⟩ := inv.down x nx h d o hm
+          obtain ⟨n1, hn1, hk1⟩ := keepNode d nd hnd
+          have hnd'' : s1.nodes d = some nd' := hnd'
+          rw [hn1] at hnd''; cases hnd''
+          rw [hk1]; exact inv.pjFw x nx h hkx d o nd hm hnd
+        · rcases hl.1 with h | h <;> rw [hkx] at h <;> cases h
+      · intro x nx hx hkx d o nd' hm hnd' hne
+        rcases cls x nx hx with h | ⟨hl, _⟩
+        · obtain ⟨_, nd, hnd⟩ := inv.down x nx h d o hm
+          have hkd := inv.pjFw x nx h hkx d o nd hm hnd
+          have hnd'' : s1.nodes d = some nd' := hnd'
+          -- a firewall node is not touched by the writes of a session
+          rcases cls d nd' hnd'' with h' | ⟨hl', _⟩
+          · exact inv.pjBroken x nx h hkx d o nd' hm h' hne
+          · obtain ⟨n1, hn1, hk1⟩ := keepNode d nd hnd
+            rw [hnd''] at hn1; cases hn1
+            rcases hl'.1 with h' | h' <;> rw [hk1, hkd] at h' <;> cases h'
+        · rcases hl.1 with h | h <;> rw [hkx] at h <;> cases h
       · intro x nx hx d o hm
         rcases cls x nx hx with h | ⟨⟨_, h, _⟩, _⟩
         · obtain ⟨h1, nd, hnd⟩ := inv.down x nx h d o hm
